@@ -82,7 +82,105 @@ def collect():
     d('lockAssignedIn', 'String', lean_str(li['where']))
     d('lockReferences', 'Nat', str(li['references']))
     d('clientExecuteViaManager', 'Bool', 'true' if client_execute_info() else 'false')
+
+    # C09/C10/C12/C17: the structure of the seven server front-ends, read off the source by ast
+    d('serverStructure', 'List (String × Bool × String × Bool × Bool × Bool × Bool)',
+      lean_list('(%s, %s, %s, %s, %s, %s, %s)' % (lean_str(r[0]), 'true' if r[1] else 'false', lean_str(r[2]),
+                                               *('true' if x else 'false' for x in r[3:])) for r in server_structure()))
     return out
+
+
+def server_structure():
+    """per front-end, read off the SOURCE (ast; nothing is executed): (name, does the receive method append unit 0 to the
+    accepted units when broadcast is enabled, what its catch-all does with an exception out of the receive call
+    ('close' = ends the connection/handler, 'reset' = resets the framer and goes on), does the send path count bus
+    messages, is the receive call gated by listen-only mode, is sending gated by should_respond, does execute copy
+    transaction id and unit id from the request to the response)"""
+    import ast
+    import pymodbus.server.sync as ss
+    import pymodbus.server.async_io as sa
+    import pymodbus.server.asynchronous as st
+    trees = {}
+
+    def klass(mod, name):
+        if mod not in trees:
+            trees[mod] = ast.parse(open(mod.__file__).read())
+        for n in trees[mod].body:
+            if isinstance(n, ast.ClassDef) and n.name == name:
+                return n
+        return None
+
+    def method(mod, names, mname):
+        """first definition of mname along the given class names (class, then its base in the same module)"""
+        for cn in names:
+            c = klass(mod, cn)
+            if c is None:
+                continue
+            for f in c.body:
+                if isinstance(f, (ast.FunctionDef, ast.AsyncFunctionDef)) and f.name == mname:
+                    return f
+        return None
+
+    def has(node, pred):
+        return node is not None and any(pred(x) for x in ast.walk(node))
+
+    def appends_unit0(f):
+        return has(f, lambda x: isinstance(x, ast.Call) and isinstance(x.func, ast.Attribute) and x.func.attr == 'append'
+                   and len(x.args) == 1 and isinstance(x.args[0], ast.Constant) and x.args[0].value == 0)
+
+    def catch_all(f, connected=None):
+        """the handlers of `except Exception` / bare `except` in f (for the shared asyncio handle(): the branch taken by
+        the connected / disconnected handler class)"""
+        hs = []
+        for x in ast.walk(f):
+            if isinstance(x, ast.ExceptHandler) and (x.type is None or (isinstance(x.type, ast.Name) and x.type.id == 'Exception')):
+                body = x.body
+                if connected is not None:
+                    for st_ in x.body:
+                        if isinstance(st_, ast.If) and 'isinstance' in ast.unparse(st_.test):
+                            body = st_.body if connected else st_.orelse
+                hs.append(body)
+        return hs
+
+    def reaction(bodies):
+        txt = '\n'.join(ast.unparse(s_) for b in bodies for s_ in b)
+        if 'self.running = False' in txt or '.close()' in txt or 'loseConnection' in txt:
+            return 'close'
+        if 'resetFrame' in txt or 'reset_frame = True' in txt:
+            return 'reset'
+        return 'none'
+
+    def counts(f):
+        return has(f, lambda x: isinstance(x, ast.AugAssign) and isinstance(x.target, ast.Attribute) and x.target.attr == 'BusMessage')
+
+    def listen_gate(f):
+        return has(f, lambda x: isinstance(x, ast.If) and 'ListenOnly' in ast.unparse(x.test))
+
+    def respond_gate(*fs):
+        return any(has(f, lambda x: isinstance(x, ast.If) and 'should_respond' in ast.unparse(x.test)) for f in fs)
+
+    def copies_ids(f):
+        txt = ast.unparse(f) if f is not None else ''
+        return 'response.transaction_id = request.transaction_id' in txt and 'response.unit_id = request.unit_id' in txt
+
+    rows = []
+    for name, cn in (('syncTcp', 'ModbusConnectedRequestHandler'), ('syncSerial', 'ModbusSingleRequestHandler'),
+                     ('syncUdp', 'ModbusDisconnectedRequestHandler')):
+        h = method(ss, [cn], 'handle')
+        ex = method(ss, [cn, 'ModbusBaseRequestHandler'], 'execute')
+        sd = method(ss, [cn], 'send')
+        rows.append((name, appends_unit0(h), reaction(catch_all(h)), counts(sd), listen_gate(h), respond_gate(sd, ex), copies_ids(ex)))
+    for name, cn, conn in (('aioTcp', 'ModbusConnectedRequestHandler', True), ('aioUdp', 'ModbusDisconnectedRequestHandler', False)):
+        h = method(sa, [cn, 'ModbusBaseRequestHandler'], 'handle')
+        ex = method(sa, [cn, 'ModbusBaseRequestHandler'], 'execute')
+        sd = method(sa, [cn, 'ModbusBaseRequestHandler'], 'send')
+        rows.append((name, appends_unit0(h), reaction(catch_all(h, conn)), counts(sd), listen_gate(h), respond_gate(sd, ex), copies_ids(ex)))
+    for name, cn, recv in (('twistedTcp', 'ModbusTcpProtocol', 'dataReceived'), ('twistedUdp', 'ModbusUdpProtocol', 'datagramReceived')):
+        h = method(st, [cn], recv)
+        ex = method(st, [cn], '_execute')
+        sd = method(st, [cn], '_send')
+        rows.append((name, appends_unit0(h), reaction(catch_all(h)), counts(sd), listen_gate(h), respond_gate(sd, ex), copies_ids(ex)))
+    return rows
 
 
 def lock_scope_info(path=None):
